@@ -105,6 +105,14 @@ def main():
     props = args or ["C%02d" % i for i in range(1, 21)]
     res = run(sd, props, tier)
     out = os.path.join(sd, "detection_%s.json" % tier)
+    if os.path.exists(out) and args:
+        # a partial run updates the entries of the checks that were run
+        try:
+            old = json.load(open(out))
+        except ValueError:
+            old = {}
+        old.update(res)
+        res = old
     if os.access(sd, os.W_OK):
         with open(out, "w") as f:
             json.dump(res, f, indent=1, sort_keys=True)
